@@ -628,17 +628,22 @@ RULES = {
                  "if n > m {", "if ( n . cmp ( & m ) == core :: cmp :: Ordering :: Greater ) {"),
     "R12j": Rule("R12j", "cmp::min(A, B) -> Ord::min(A, B)  (std: `pub fn min<T: Ord>(v1: T, v2: T) -> T { v1.min(v2) }`)",
                  "cmp :: min ( $$a , $$b )", "Ord :: min ( $$a , $$b )"),
+    "R16l": Rule("R16l", "if t0 < qt1 { -> if (t0.cmp(&qt1) == Less) {  (std default `PartialOrd::lt` is `matches!(partial_cmp, Some(Less))`, and partial_cmp is `Some(self.cmp(other))` for BigUint)",
+                 "if t0 < qt1 {", "if ( t0 . cmp ( & qt1 ) == core :: cmp :: Ordering :: Less ) {"),
     "R17": Rule("R17", "self.sign.cmp(&other.sign) -> sign_cmp(&self.sign, &other.sign)",
                 "self . sign . cmp ( & other . sign )", "sign_cmp ( & self . sign , & other . sign )"),
     "R2b": Rule("R2b", "Some((&x, y)) => { BODY } -> Some((x_r__, y)) => { let x = *x_r__; BODY }",
                 "Some ( ( & $x , $y ) ) => { $$body }", "Some ( ( x_r__ , $y ) ) => { let $x = * x_r__ ; $$body }"),
     # num_integer::Integer::is_even on a primitive (external crate) -> helper with the arithmetic definition
     "R15e": Rule("R15e", "n.is_even() (n: u32) -> __u32_is_even(n)", "n . is_even ( )", "__u32_is_even ( n )"),
+    "R12k": Rule("R12k", "X.data[..] == [1] -> __vec_is_one(&X.data)  (slice/array equality)", "$x . data [ .. ] == [ 1 ]", "__vec_is_one ( & $x . data )"),
     "R12f": Rule("R12f", "X.data == [1] -> __vec_is_one(&X.data)", "$x . data == [ 1 ]", "__vec_is_one ( & $x . data )"),
     "R3k": Rule("R3k", "self.data[i].F().into() -> From::from(self.data[i].F())  (std: blanket `impl Into<U> for T where U: From<T>`)",
                 "self . data [ i ] . $f ( ) . into ( )", "From :: from ( self . data [ i ] . $f ( ) )"),
     "R3b": Rule("R3b", "(digit & bit_mask) with digit: &u64 -> (*digit & bit_mask)  (std: `impl BitAnd<u64> for &u64` is `*self & rhs`)",
                 "( digit & bit_mask )", "( * digit & bit_mask )"),
+    "R3t": Rule("R3t", "q * &t1 % modulus -> Rem::rem(Mul::mul(q, &t1), modulus)  (operator definition, left-associative)",
+                "q * & t1 % modulus", "Rem :: rem ( Mul :: mul ( q , & t1 ) , modulus )"),
     "R3i": Rule("R3i", "rem.into() -> From::from(rem)  (std: blanket `impl Into<U> for T where U: From<T>`)", "rem . into ( )", "From :: from ( rem )"),
     "R3o": Rule("R3o", "One::one() -> BigUint::one()  (the impl selected by the return type)", "One :: one ( )", "BigUint :: one ( )"),
     "R12g": Rule("R12g", "BigDigit::from_u128(x) -> __digit_from_u128(x)  (num_traits::FromPrimitive on u64: external crate; helper carries the assumed contract)",
